@@ -562,7 +562,12 @@ func (vc *VC) mergeStates(conds []string, sts []*State) *State {
 		out.heap[k] = vc.define(k, srt, iteChain(conds, terms))
 	}
 	// locals: those present in all
-	for a, v0 := range sts[0].locals {
+	l0 := map[*ssa.Alloc]bool{}
+	for a := range sts[0].locals {
+		l0[a] = true
+	}
+	for _, a := range sortedAllocs(l0) {
+		v0 := sts[0].locals[a]
 		all := true
 		for _, s := range sts[1:] {
 			if _, ok := s.locals[a]; !ok {
@@ -780,4 +785,29 @@ func (vc *VC) incrementalScript(timeoutMs int, from, to int) string {
 		b.WriteString(fmt.Sprintf("(echo \"@obl %d\")\n(push 1)\n(assert (not %s))\n(check-sat)\n(pop 1)\n", i, o.Goal))
 	}
 	return b.String()
+}
+
+// sortedHeapKeys: deterministic iteration order over the heap keys (the generated SMT text must not depend on Go's
+// map iteration order: identical input gives an identical script, hence an identical solver run)
+func (vc *VC) sortedHeapKeys() []string {
+	ks := make([]string, 0, len(vc.heapSorts))
+	for k := range vc.heapSorts {
+		ks = append(ks, k)
+	}
+	sort.Strings(ks)
+	return ks
+}
+
+func sortedAllocs(m map[*ssa.Alloc]bool) []*ssa.Alloc {
+	as := make([]*ssa.Alloc, 0, len(m))
+	for a := range m {
+		as = append(as, a)
+	}
+	sort.Slice(as, func(i, j int) bool {
+		if as[i].Pos() != as[j].Pos() {
+			return as[i].Pos() < as[j].Pos()
+		}
+		return as[i].Name() < as[j].Name()
+	})
+	return as
 }
